@@ -69,6 +69,7 @@ func RunConcurrent(sc *Scenario) *RunResult {
 	}
 	s := &Sched{schedule: sc.Schedule, MaxSteps: total*(600+16*nh+4*na) + 400}
 	faults := sc.CacheFaults
+	var prevKeys []string
 	s.Between = func(step int) {
 		for _, f := range faults {
 			if f.AtStep == step {
@@ -80,6 +81,7 @@ func RunConcurrent(sc *Scenario) *RunResult {
 			}
 		}
 		res.States = append(res.States, abstractState(w, s))
+		reachProbes(w, s, &prevKeys)
 		if cr := w.R.VerifCache(); cr != nil && sc.Options.Caching {
 			keys, idx := cr.VerifKeys()
 			if len(keys) > sc.Options.Capacity && !(sc.Options.Capacity == 0 && len(keys) == 0) {
@@ -108,6 +110,56 @@ func RunConcurrent(sc *Scenario) *RunResult {
 	}
 	poolReset(PoolCfg{Policy: "real"})
 	return res
+}
+
+// reachProbes counts rare situations the schedules are meant to reach (run by the scheduler between steps).
+func reachProbes(w *World, s *Sched, prevKeys *[]string) {
+	if len(s.Steps) == 0 {
+		return
+	}
+	var last [maxTasks]int
+	for i := range last {
+		last[i] = -3
+	}
+	for _, st := range s.Steps {
+		last[st.Task] = st.Site
+	}
+	cur := s.Steps[len(s.Steps)-1]
+	chainSite := siteIndex("dispatch.chain")
+	inDispatch, midChain := 0, 0
+	for t := 0; t < s.n; t++ {
+		if last[t] == chainSite {
+			inDispatch++
+		}
+		if t != cur.Task && last[t] >= siteHEnter && last[t] <= siteWCall {
+			midChain++
+		}
+	}
+	if inDispatch >= 2 && cur.Site == chainSite {
+		probeAdd(prTwoInDispatch, 1)
+	}
+	if cur.Site == siteCacheHit && midChain > 0 {
+		probeAdd(prCacheHitWhileOtherMidChain, 1)
+	}
+	if cr := w.R.VerifCache(); cr != nil {
+		keys, _ := cr.VerifKeys()
+		if len(keys) == len(*prevKeys) && len(keys) > 0 && len(keys) == w.sc.Options.Capacity {
+			gone := 0
+			for _, k := range *prevKeys {
+				found := false
+				for _, k2 := range keys {
+					found = found || k == k2
+				}
+				if !found {
+					gone++
+				}
+			}
+			if gone > 0 {
+				probeAdd(prEvictionObserved, 1)
+			}
+		}
+		*prevKeys = keys
+	}
 }
 
 func applyCacheFault(w *World, f CacheFault) bool {
